@@ -608,11 +608,11 @@ fn unary(ctx: &mut Ctx, m: &Model<'_>, b: &Built, level: Level, first_hashes: (u
     for &(i, j) in &p.ranges {
         // Range
         let exp = if i <= j && j <= n { Some(&u[i..j]) } else { None };
-        sub_check("get(i..j)", c, s, (i, j), exp, s.get(i..j))?;
+        sub_check("get(i..j)", c, (i, j), exp, s.get(i..j))?;
         jsstr_sub("JsStr::get(i..j)", c, (i, j), exp, js.get(i..j))?;
         // RangeInclusive: i..=j means [i, j+1)
         let exp = if j < n && i <= j + 1 { Some(&u[i..=j]) } else { None };
-        sub_check("get(i..=j)", c, s, (i, j), exp, s.get(i..=j))?;
+        sub_check("get(i..=j)", c, (i, j), exp, s.get(i..=j))?;
         jsstr_sub("JsStr::get(i..=j)", c, (i, j), exp, js.get(i..=j))?;
         // slice(): clamps the end, empty when start >= end
         let e2 = j.min(n);
@@ -627,16 +627,16 @@ fn unary(ctx: &mut Ctx, m: &Model<'_>, b: &Built, level: Level, first_hashes: (u
     }
     for i in 0..=n + 1 {
         let exp = if i <= n { Some(&u[i..]) } else { None };
-        sub_check("get(i..)", c, s, (i, n), exp, s.get(i..))?;
+        sub_check("get(i..)", c, (i, n), exp, s.get(i..))?;
         jsstr_sub("JsStr::get(i..)", c, (i, n), exp, js.get(i..))?;
         let exp = if i <= n { Some(&u[..i]) } else { None };
-        sub_check("get(..j)", c, s, (0, i), exp, s.get(..i))?;
+        sub_check("get(..j)", c, (0, i), exp, s.get(..i))?;
         jsstr_sub("JsStr::get(..j)", c, (0, i), exp, js.get(..i))?;
         let exp = if i < n { Some(&u[..=i]) } else { None };
-        sub_check("get(..=j)", c, s, (0, i), exp, s.get(..=i))?;
+        sub_check("get(..=j)", c, (0, i), exp, s.get(..=i))?;
         gets += 5;
     }
-    sub_check("get(..)", c, s, (0, n), Some(u), s.get(..))?;
+    sub_check("get(..)", c, (0, n), Some(u), s.get(..))?;
     jsstr_sub("JsStr::get(..)", c, (0, n), Some(u), js.get(..))?;
     content("slice (clamped end)", c, u, &s.slice(0, usize::MAX))?;
     content("slice (start past end)", c, &[], &s.slice(usize::MAX, usize::MAX))?;
@@ -676,7 +676,7 @@ fn unary(ctx: &mut Ctx, m: &Model<'_>, b: &Built, level: Level, first_hashes: (u
     Ok(())
 }
 
-fn sub_check(op: &'static str, c: &[&str], parent: &JsString, at: (usize, usize), exp: Option<&[u16]>, got: Option<JsString>) -> R {
+fn sub_check(op: &'static str, c: &[&str], at: (usize, usize), exp: Option<&[u16]>, got: Option<JsString>) -> R {
     match (exp, got) {
         (None, None) => Ok(()),
         (Some(e), Some(g)) => {
@@ -685,9 +685,8 @@ fn sub_check(op: &'static str, c: &[&str], parent: &JsString, at: (usize, usize)
                 ck!(op, c, (at, e.to_vec()), (at, g.to_vec()));
             }
             if !g.is_static() {
+                // (that the result holds one reference on its source, and gives it back, is checked by the caller)
                 ck!(op, c, (at, "refcount of result", Some(1)), (at, "refcount of result", g.refcount()));
-                // the result keeps its source alive; dropping it gives the reference back (checked by the caller)
-                let _ = parent;
             }
             Ok(())
         }
